@@ -630,6 +630,30 @@ def r8_exclusion_list(ctx):
     yield Ob('codes:ExternalCodes.isValid tests the code set id for membership in the exclusions', ok, ctx.floc(iv), '' if ok else 'exclusion test changed')
 
 
+VALIDATOR_MODULES = ('map_if', 'codes', 'dataele', 'validation', 'syntax', 'map_walker', 'nodeCounter', 'error_handler')
+
+
+def validator_keeps_no_state(ctx):
+    """what an element is checked against (code lists, exclusions, data element definitions, limits) belongs to the map
+    object that was loaded with the caller's parameters: the validating modules keep no module- or class-level object
+    that a function fills or changes, and cache no result across calls - a cache keyed by less than everything the
+    result depends on answers one document with another one's configuration.  C18.R2 (shared), restricted to the
+    validating modules."""
+    from . import c18
+    n = 0
+    for o in c18.r2_shared_state(ctx):
+        if any(o.key.startswith(m + ' ') for m in VALIDATOR_MODULES):
+            n += 1
+            yield o
+    if n < 8:
+        raise AnalysisError('shared-state audit reached only %d objects of the validating modules' % n)
+
+
+def r9_no_state_between_documents(ctx):
+    for o in validator_keeps_no_state(ctx):
+        yield o
+
+
 RULES = [
     Rule('C15.R1', 'reported => result False (path search from every report)', r1_reported_implies_false, floor=15),
     Rule('C15.R2', 'result False => reported (path search to every constant False)', r2_false_implies_reported, floor=11),
@@ -638,5 +662,6 @@ RULES = [
     Rule('C15.R5', 'data element lengths sane; element regexes compile', r5_data, floor=225),
     Rule('C15.R6', 'delegated is_valid calls always run and are and-ed into the result', r6_delegation_always_runs, floor=7),
     Rule('C15.R7', 'DTP03 is validated against the qualifier sent in DTP02 only', r7_dtp_format_from_qualifier, floor=1),
+    Rule('C15.R9', 'shared with C18.R2: the validating modules keep no module/class-level state and cache nothing across calls', r9_no_state_between_documents, floor=8),
     Rule('C15.R8', 'excluded code sets are kept as a list of ids and tested by membership', r8_exclusion_list, floor=2),
 ]
